@@ -64,8 +64,9 @@ func wrapGraphNodeError(nodeKey string, err error) error {
 	if ok := isInterruptError(err); ok {
 		return err
 	}
-	var ie *internalError
-	ok := errors.As(err, &ie)
+	// only the error a nested graph returned as it is gets its node path extended; an internal error that the node
+	// wrapped in an error of its own stays part of that error's chain
+	ie, ok := err.(*internalError)
 	if !ok {
 		return &internalError{
 			typ:       internalErrorTypeNodeRun,
@@ -89,8 +90,9 @@ func wrapStreamWrapperError(streamWrapperType defaultImplAction, err error) erro
 	if ok := isInterruptError(err); ok {
 		return err
 	}
-	var ie *internalError
-	ok := errors.As(err, &ie)
+	// only the error a nested graph returned as it is gets its node path extended; an internal error that the node
+	// wrapped in an error of its own stays part of that error's chain
+	ie, ok := err.(*internalError)
 	if !ok {
 		return &internalError{
 			typ:               internalErrorTypeNodeRun,
